@@ -7,6 +7,7 @@ CONSTANTS
  ActHosts = {"api", "api2", "other"}
  Fixed = TRUE
  Emit = FALSE
+ Forms = {"abs", "netpath", "path"}
  CredSources = {"helper", "urluser"}
 SPECIFICATION Spec
 VIEW View
